@@ -126,7 +126,7 @@ pub fn record(a: &Args) {
             if cid % 7 == 0 { cid += 1; st.cases += 1; run_matrix::<FF<3>>(&mut rng, &mut t, &mut st, cid, &Mat::from_data((m, n), vals.iter().map(|x| <FF<3> as Ent>::of_int(*x))), false); }
         }
     }
-    let picks = if a.thorough() { 100000 } else { 40 };
+    let picks = if a.thorough() { 3000 } else { 40 };
     diag_family::<GaussInt<i64>>(a, 21, &mut t, &mut st, &mut cid, &|x, y| GaussInt::new(x, y), 4, picks);
     diag_family::<EisenInt<i64>>(a, 22, &mut t, &mut st, &mut cid, &|x, y| EisenInt::new(x, y), 4, picks);
     let n = t.finish();
